@@ -1182,8 +1182,14 @@ def p_qualifier(p):
         else:
             qval = qualdecl.value  # default value
     else:
-        qval = cimvalue(qval, qualdecl.type)
-    p[0] = CIMQualifier(qname, qval, type=qualdecl.type, **flavors)
+        try:
+            qval = cimvalue(qval, qualdecl.type)
+        except (ValueError, TypeError) as exc:
+            raise _value_error(p, "qualifier", qname, exc)
+    try:
+        p[0] = CIMQualifier(qname, qval, type=qualdecl.type, **flavors)
+    except (ValueError, TypeError) as exc:
+        raise _value_error(p, "qualifier", qname, exc)
 
     # Note: The propagated flag is not set because this is parsed MOF, which
     # contains specified qualifiers and not propagated qualifiers.
@@ -1235,6 +1241,18 @@ def p_propertyDeclaration(p):
     p[0] = p[1]
 
 
+def _value_error(p, kind, name, exc):
+    """
+    Return the MOFParseError for an initializer value that does not match
+    the declared type of the element (ValueError or TypeError `exc` raised by
+    the CIM object or CIM data type classes).
+    """
+    return MOFParseError(
+        msg=_format("Cannot compile {0} {1!A} because its value is invalid "
+                    "for its declared type: {2}", kind, name, exc),
+        parser_token=p)
+
+
 def p_propertyDeclaration_1(p):
     """propertyDeclaration_1 : dataType propertyName ';'"""
     p[0] = CIMProperty(p[2], None, type=p[1])
@@ -1242,7 +1260,10 @@ def p_propertyDeclaration_1(p):
 
 def p_propertyDeclaration_2(p):
     """propertyDeclaration_2 : dataType propertyName defaultValue ';'"""
-    p[0] = CIMProperty(p[2], p[3], type=p[1])
+    try:
+        p[0] = CIMProperty(p[2], p[3], type=p[1])
+    except (ValueError, TypeError) as exc:
+        raise _value_error(p, "property", p[2], exc)
 
 
 def p_propertyDeclaration_3(p):
@@ -1253,8 +1274,11 @@ def p_propertyDeclaration_3(p):
 
 def p_propertyDeclaration_4(p):
     """propertyDeclaration_4 : dataType propertyName array defaultValue ';'"""
-    p[0] = CIMProperty(p[2], p[4], type=p[1], is_array=True,
-                       array_size=p[3])
+    try:
+        p[0] = CIMProperty(p[2], p[4], type=p[1], is_array=True,
+                           array_size=p[3])
+    except (ValueError, TypeError) as exc:
+        raise _value_error(p, "property", p[2], exc)
 
 
 def p_propertyDeclaration_5(p):
@@ -1267,8 +1291,11 @@ def p_propertyDeclaration_6(p):
     # pylint: disable=line-too-long
     """propertyDeclaration_6 : qualifierList dataType propertyName defaultValue ';'"""  # noqa: E501
     quals = OrderedDict([(x.name, x) for x in p[1]])
-    p[0] = CIMProperty(p[3], cimvalue(p[4], p[2]),
-                       type=p[2], qualifiers=quals)
+    try:
+        p[0] = CIMProperty(p[3], cimvalue(p[4], p[2]),
+                           type=p[2], qualifiers=quals)
+    except (ValueError, TypeError) as exc:
+        raise _value_error(p, "property", p[3], exc)
 
 
 def p_propertyDeclaration_7(p):
@@ -1282,9 +1309,12 @@ def p_propertyDeclaration_8(p):
     # pylint: disable=line-too-long
     """propertyDeclaration_8 : qualifierList dataType propertyName array defaultValue ';'"""  # noqa: E501
     quals = OrderedDict([(x.name, x) for x in p[1]])
-    p[0] = CIMProperty(p[3], cimvalue(p[5], p[2]),
-                       type=p[2], qualifiers=quals, is_array=True,
-                       array_size=p[4])
+    try:
+        p[0] = CIMProperty(p[3], cimvalue(p[5], p[2]),
+                           type=p[2], qualifiers=quals, is_array=True,
+                           array_size=p[4])
+    except (ValueError, TypeError) as exc:
+        raise _value_error(p, "property", p[3], exc)
 
 
 def p_referenceDeclaration(p):
@@ -1308,8 +1338,11 @@ def p_referenceDeclaration(p):
         if len(p) == 5:
             dv = p[3]
     quals = OrderedDict([(x.name, x) for x in quals])
-    p[0] = CIMProperty(pname, dv, type='reference',
-                       reference_class=cname, qualifiers=quals)
+    try:
+        p[0] = CIMProperty(pname, dv, type='reference',
+                           reference_class=cname, qualifiers=quals)
+    except (ValueError, TypeError) as exc:
+        raise _value_error(p, "reference", pname, exc)
 
 
 def p_methodDeclaration(p):
@@ -1631,9 +1664,12 @@ def p_qualifierDeclaration(p):
 
     flavors = _build_flavors(p, flist, None, qualname)
 
-    p[0] = CIMQualifierDeclaration(
-        qualname, dt, value=value, is_array=is_array, array_size=array_size,
-        scopes=scopes, **flavors)
+    try:
+        p[0] = CIMQualifierDeclaration(
+            qualname, dt, value=value, is_array=is_array,
+            array_size=array_size, scopes=scopes, **flavors)
+    except (ValueError, TypeError) as exc:
+        raise _value_error(p, "qualifier declaration", qualname, exc)
 
 
 def _build_flavors(p, flist, qualdecl, qualname):
@@ -1906,6 +1942,16 @@ def p_instanceDeclaration(p):
 
             if embedded_object_type:
                 if pval:
+                    pvals = pval if isinstance(pval, list) else [pval]
+                    if not all(isinstance(v, str) for v in pvals):
+                        raise MOFParseError(
+                            msg=_format(
+                                "Cannot compile instance of {0!A} because "
+                                "the value of its embedded {1} property "
+                                "{2!A} is not a string (or array of strings) "
+                                "with the MOF of the embedded {1}: {3!A}",
+                                cname, embedded_object_type, pname, pval),
+                            parser_token=p)
                     objs = p.parser.mofcomp.compile_embedded_value(pval, ns)
                     for obj in objs:
                         if not isinstance(inst, allowed_types):
@@ -1945,7 +1991,7 @@ def p_instanceDeclaration(p):
                             parser_token=p)
                 pprop.value = cimvalue(pval, cprop.type)
             inst.properties[pname] = pprop
-        except ValueError as ve:
+        except (ValueError, TypeError) as ve:
             raise MOFParseError(
                 msg=_format(
                     "Cannot compile instance of {0!A} because it specifies "
